@@ -188,3 +188,67 @@ Proof.
   - apply tree_faithful_nul_free. apply nul_free_b_sound. vm_compute. reflexivity.
   - split; vm_compute; reflexivity.
 Qed.
+
+(* ---- returning stamps: a touch, then a same-size rewrite that sets the mtime back to the value it had two states
+        ago.  Every content change changes the stamp relative to the state before it (stepwise_b), but states 1 and 3
+        have one stamp and different content (stamp_determines_b = false). ---- *)
+(* (1) nothing hashed the file in the touched state: the entry of state 1 is still there and is served.  Witness of
+       the limitation KC4; the hypothesis of same_result_hashed_moments fails (moment 1 is a hashed moment). *)
+Definition hRet : list event :=
+  [EvEdit (ECreate 1 id7 [97; 98; 99] 5000000%Z); EvRun 0 None (ask 1 0 3);
+   EvEdit (ETouch 1 6000000%Z); EvEdit (EWrite 1 [97; 98; 100] 5000000%Z)].
+Lemma returning_stamp_stale :
+  stepwise_b (moments Hx Tid ([], empty_world) hRet) = true /\
+  stamp_determines_b (moments Hx Tid ([], empty_world) hRet) = false /\
+  nofail (probe 1 0 3) /\
+  cached_answer Hx Tid hRet 0 None (probe 1 0 3) = RHash (Hx 0 [97; 98; 99]) /\
+  plain_answer Hx Tid hRet 0 None (probe 1 0 3) = RHash (Hx 0 [97; 98; 100]).
+Proof. split; [vm_compute; reflexivity|]. split; [vm_compute; reflexivity|]. split; [cbn [probe nofail c_io]; auto|]. split; vm_compute; reflexivity. Qed.
+
+(* (2) a run re-hashed the same key in the touched state: put OVERWRITES the entry (new stamp), so state 3 is a miss.
+       Safe, but only because of the overwrite: no theorem above covers it (its hypothesis would need to know which
+       keys the middle run visits). *)
+Definition hRetRefreshed : list event :=
+  [EvEdit (ECreate 1 id7 [97; 98; 99] 5000000%Z); EvRun 0 None (ask 1 0 3);
+   EvEdit (ETouch 1 6000000%Z); EvRun 0 None (ask 1 0 3); EvEdit (EWrite 1 [97; 98; 100] 5000000%Z)].
+Lemma returning_stamp_refreshed :
+  stepwise_b (moments Hx Tid ([], empty_world) hRetRefreshed) = true /\
+  stamp_determines_b (moments Hx Tid ([], empty_world) hRetRefreshed) = false /\
+  lookup (tree_of 0 None) (id7, 0, 3) (fst (state_after hRetRefreshed)) = Some (mkE 6%Z 3 3 (Hx 0 [97; 98; 99])) /\
+  cached_answer Hx Tid hRetRefreshed 0 None (probe 1 0 3) = plain_answer Hx Tid hRetRefreshed 0 None (probe 1 0 3).
+Proof. split; [vm_compute; reflexivity|]. split; [vm_compute; reflexivity|]. split; vm_compute; reflexivity. Qed.
+
+(* (3) ... and not even then when the refreshing write is lost (crash before the flush) while the older one survived,
+       or when the middle run used another algorithm / chunk size / was interrupted before the file *)
+Definition hRetLost : list event :=
+  [EvEdit (ECreate 1 id7 [97; 98; 99] 5000000%Z); EvRun 0 None (ask 1 0 3);
+   EvEdit (ETouch 1 6000000%Z); EvRun 0 None (ask 1 0 3); EvLose (fun _ _ e => Z.eqb (e_mt e) 5);
+   EvEdit (EWrite 1 [97; 98; 100] 5000000%Z)].
+Definition hRetOtherAlgo : list event :=
+  [EvEdit (ECreate 1 id7 [97; 98; 99] 5000000%Z); EvRun 0 None (ask 1 0 3);
+   EvEdit (ETouch 1 6000000%Z); EvRun 1 None (ask 1 0 3); EvEdit (EWrite 1 [97; 98; 100] 5000000%Z)].
+Lemma returning_stamp_not_refreshed :
+  cached_answer Hx Tid hRetLost 0 None (probe 1 0 3) = RHash (Hx 0 [97; 98; 99]) /\
+  plain_answer Hx Tid hRetLost 0 None (probe 1 0 3) = RHash (Hx 0 [97; 98; 100]) /\
+  stepwise_b (moments Hx Tid ([], empty_world) hRetOtherAlgo) = true /\
+  cached_answer Hx Tid hRetOtherAlgo 0 None (probe 1 0 3) = RHash (Hx 0 [97; 98; 99]) /\
+  plain_answer Hx Tid hRetOtherAlgo 0 None (probe 1 0 3) = RHash (Hx 0 [97; 98; 100]).
+Proof. repeat split; vm_compute; reflexivity. Qed.
+
+(* a returning stamp onto a state that no run ever hashed is covered by same_result_hashed_moments *)
+Definition hRetUnhashed : list event :=
+  [EvEdit (ECreate 1 id7 [97; 98; 99] 5000000%Z); EvEdit (ETouch 1 6000000%Z); EvRun 0 None (ask 1 0 3);
+   EvEdit (EWrite 1 [97; 98; 100] 5000000%Z)].
+Lemma returning_stamp_unhashed :
+  stamp_determines_b (moments Hx Tid ([], empty_world) hRetUnhashed) = false /\
+  stamp_det2 (run_moments Hx Tid ([], empty_world) hRetUnhashed) [snd (state_after hRetUnhashed)] /\
+  cached_answer Hx Tid hRetUnhashed 0 None (probe 1 0 3) = plain_answer Hx Tid hRetUnhashed 0 None (probe 1 0 3).
+Proof.
+  split; [vm_compute; reflexivity|]. split; [|vm_compute; reflexivity].
+  intros w1 w2 id i1 i2 I1 I2 E1 E2 Em El. destruct I2 as [<-|[]].
+  vm_compute in I1. destruct I1 as [<-|[]].
+  unfold inode_of in E1, E2. vm_compute in E1, E2.
+  destruct id as [d n]. destruct d as [|[p|p|]]; try discriminate E1.
+  destruct n as [|[[[p|p|]|[p|p|]|]|[[p|p|]|[p|p|]|]|]]; try discriminate E1.
+  injection E1 as <-. injection E2 as <-. vm_compute in Em. discriminate Em.
+Qed.
